@@ -94,6 +94,14 @@ def temp_init(fn, d):
         return None
     for j in fn.walk(ini):
         k = fn.nodes[j]['k']
+        # the value must not depend on memory that a call or a store between the declaration and a use can change: no read
+        # through a pointer, a reference or an arrow (e.g. `session->state`), only local values and constants
+        if k == 'MemberExpr' and fn.nodes[j].get('arrow') or k == 'UnaryOperator' and fn.nodes[j].get('op') == '*' or k == 'CXXThisExpr':
+            return None
+        if k == 'DeclRefExpr' and fn.nodes[j].get('dk') in ('Var', 'ParmVar') and not fn.nodes[j].get('g') and (fn.nodes[j].get('t') or '').rstrip().endswith(('&', '*')):
+            return None
+        if k == 'DeclRefExpr' and fn.nodes[j].get('g') and 'cv' not in fn.nodes[j]:
+            return None
         if k in ('CallExpr', 'CXXMemberCallExpr', 'LambdaExpr', 'CXXNewExpr') and not (fn.nodes[j].get('callee') or '').endswith(('::size', '::data', '::operator[]', '::at')):
             return None
         if k == 'CXXOperatorCallExpr' and fn.nodes[j].get('op') not in ('[]', '*', '->', '+', '-', '^', '|', '&', '<<', '>>', '==', '!=', '<', '>', '<=', '>='):
